@@ -24,7 +24,9 @@ E2E = ("Main theorem parse_float_correct (coq/proofs/EndToEnd6.v; props/C01.v): 
 DEEP_OPEN = ("one residual premise remains (deep_ok: a declined estimate never has a biased exponent below -64; it can only fail if "
              "compute_float's all-ones fallback fired on a value below 2^(femin-2)); it is stated explicitly in every theorem, is not "
              "needed without debug assertions, and is attacked by the directed search of the check (all-ones fallback witnesses for every q).")
-DEEP_CLOSED = "the premise deep_ok is discharged by no_deep_fallback (verified modular search, coq/proofs/DeepFallback*.v)."
+DEEP_CLOSED = ("the one intermediate premise (a declined estimate never has a biased exponent below -64) is discharged by no_deep_fallback: "
+               "a Euclid-like modular search written in Gallina, proved sound, run by the kernel's VM over every deep (q, lz) instance of both formats on the "
+               "regenerated table (coq/proofs/DeepFallback*.v); so the theorem is unconditional for all 8 configurations (coq/proofs/Final.v).")
 import os
 DEEP = DEEP_CLOSED if os.path.exists('/verif/coq/proofs/.deep_closed') else DEEP_OPEN
 E2E = E2E % DEEP
